@@ -2314,8 +2314,8 @@ namespace xsimd
 
             return select(y == ze,
                           select(x == ze,
-                                 batch_type(ze, ze),
-                                 select(x < ze, batch_type(ze, sqrt_x), batch_type(sqrt_x, ze))),
+                                 batch_type(ze, y),
+                                 select(x < ze, batch_type(ze, copysign(sqrt_x, y)), batch_type(sqrt_x, y))),
                           select(x == ze,
                                  select(y > ze, batch_type(sqrt_hy, sqrt_hy), batch_type(sqrt_hy, -sqrt_hy)),
                                  resg));
